@@ -34,6 +34,19 @@ def quote_name_if_needed(name: str) -> str:
     return f'"{name}"'
 
 
+# words with a meaning of their own where a property may stand (column settings, table body)
+RESERVED_PROPERTY_KEYS = {
+    'pk', 'note', 'default', 'ref', 'unique', 'increment', 'null', 'indexes'
+}
+
+
+def quote_property_key(key: str) -> str:
+    '''Like a name, but a key spelled like a setting keyword is read back as a property only if quoted'''
+    if key.lower() in RESERVED_PROPERTY_KEYS:
+        return f'"{key}"'
+    return quote_name_if_needed(key)
+
+
 def quote_type_if_needed(type_: str) -> str:
     '''Wrap a column type in double quotes unless it can be parsed unquoted: word, word.word, word[], word(args)'''
     if re.fullmatch(r'[A-Za-z0-9_]+(\.[A-Za-z0-9_]+|\[\]|\(.*\))?', type_, flags=re.DOTALL):
